@@ -813,7 +813,7 @@ func sumFaultKinds(path string) []string {
 
 func runC01(c *hx.Ctx) {
 	r := c.Rng
-	budget := &sumBudget{left: 300000}
+	budget := &sumBudget{left: 250000}
 	if c.Tier == "thorough" {
 		budget.left = 6000000
 	}
